@@ -9,7 +9,11 @@ obj     = {'kind': 'root', 'props': [...]}
         | {'kind': 'channel', 'group': g, 'channel': c, 'form': FORM, 'values': ..., 'props': [...]}
 FORM    = 'nd:<dtype>' (values = LE bytes; dtype in i1..u8,f4,f8,?,c8,c16), 'nd:<dtype>:strided',
           'nd:M8[us]' / 'nd:M8[s]' (values = list of int ticks), 'list:int:<dtype>', 'list:float', 'list:str',
-          'nd:O:str', 'list:bool', 'list:datetime' (values = list of int microseconds since 1904)
+          'nd:O:str', 'list:bool', 'list:datetime' (values = list of int microseconds since 1904),
+          'gen:<dtype>' (dtype as for nd, or M8[us]; values = [n, mult, add]: a long array given by a formula, see gen_array)
+program keys added later (all optional): 'prelude' = calls written to the same path by an EARLIER writer in mode 'w' (the file
+          is then overwritten by the program's first session); 'reuse_writer' = one TdmsWriter(path, mode='a') object is
+          entered once per session instead of a new writer per session.
 prop    = [name, kind, value]    kinds: int float bool npbool str datetime dt64:<unit> tdmsts np:<dtype> wrap:<Type>
 """
 import datetime as _dt
@@ -26,6 +30,8 @@ DTYPE_TO_T = {'i1': 'i8', 'i2': 'i16', 'i4': 'i32', 'i8': 'i64', 'u1': 'u8', 'u2
               'f4': 'f32', 'f8': 'f64', '?': 'bool', 'c8': 'c64', 'c16': 'c128'}
 T_CODE = {'i8': 1, 'i16': 2, 'i32': 3, 'i64': 4, 'u8': 5, 'u16': 6, 'u32': 7, 'u64': 8, 'f32': 9, 'f64': 10,
           'str': 0x20, 'bool': 0x21, 'ts': 0x44, 'c64': 0x08000c, 'c128': 0x10000d}
+T_SIZE = {'i8': 1, 'i16': 2, 'i32': 4, 'i64': 8, 'u8': 1, 'u16': 2, 'u32': 4, 'u64': 8, 'f32': 4, 'f64': 8, 'bool': 1,
+          'c64': 8, 'c128': 16}
 INT_LIST_PIN = {'i1': None, 'u1': 200, 'i2': -200, 'u2': 40000, 'i4': -40000, 'u4': 3 * 10 ** 9,
                 'i8': -3 * 10 ** 9, 'u8': 2 ** 63 + 5}
 INT_DT_RANGE = {'i1': INT_RANGES['i8'], 'i2': INT_RANGES['i16'], 'i4': INT_RANGES['i32'], 'i8': INT_RANGES['i64'],
@@ -215,9 +221,89 @@ def program(draw, max_sessions=2, max_calls=3, max_objs=4, forms=None, names=Non
                     bad[0] = dict(bad[0], props=list(bad[0].get('props') or []) + [['bad_value', 'unsupported', None]])
                 calls.append({'rejected': bad})
         sessions.append(calls)
-    return {'version': draw(st.sampled_from([4712, 4713])), 'dest': dest, 'index': index, 'sessions': sessions,
+    prog = {'version': draw(st.sampled_from([4712, 4713])), 'dest': dest, 'index': index, 'sessions': sessions,
             'rewrite': draw(st.sampled_from([None, None, 'one_segment', 'segment_per_object'])),
             'reuse_objects': draw(st.integers(0, 3)) == 0}
+    if dest == 'path':
+        how = draw(st.sampled_from([None, None, 'prelude', 'reuse_writer']))
+        if how == 'prelude':
+            # the path already holds a file written by an earlier writer (same groups and channels): mode 'w' replaces it
+            g, c, form = draw(st.sampled_from(chans))
+            prog['prelude'] = [[{'kind': 'group', 'group': g, 'props': draw(props(1))},
+                                {'kind': 'channel', 'group': g, 'channel': c, 'form': form,
+                                 'values': draw(channel_values(form, 3)), 'props': draw(props(1))}]] * draw(st.integers(1, 2))
+        elif how == 'reuse_writer':
+            prog['reuse_writer'] = True
+    return prog
+
+
+BLOCKS = [512, 1024, 2048, 4096, 8192, 16384, 32768, 65536]
+
+
+@st.composite
+def big_program(draw, index=None):
+    """programs writing LONG arrays whose lengths sit on and around powers of two (buffered / blocked output paths), next to
+    a short string channel whose position in the file depends on the long channel's byte count"""
+    dest = draw(st.sampled_from(['path', 'stream', 'stream']))
+    if index is None:
+        index = draw(st.sampled_from([False, True]))
+    if index and dest == 'stream':
+        index = 'stream'
+    dtypes = ['i1', 'i2', 'i4', 'i8', 'u1', 'u2', 'u4', 'u8', 'f4', 'f8', '?', 'c8', 'c16', 'M8[us]']
+    sessions = []
+    chan_dt = [draw(st.sampled_from(dtypes)) for _k in range(2)]       # one data type per channel
+    tail = draw(st.sampled_from(['list:str', 'nd:i2', None]))
+    for _s in range(draw(st.integers(1, 2))):
+        calls = []
+        for _c in range(draw(st.integers(1, 2))):
+            objs = []
+            for k in range(draw(st.integers(1, 2))):
+                dt = chan_dt[k]
+                size = 16 if dt == 'M8[us]' else np.dtype(dt).itemsize
+                n = draw(st.sampled_from(BLOCKS)) * draw(st.sampled_from([1, 1, 2, 3])) + draw(st.sampled_from([-1, 0, 0, 0, 1]))
+                while n * size > 1200000:
+                    n = (n + 1) // 2
+                objs.append({'kind': 'channel', 'group': 'big', 'channel': 'long%d' % k, 'form': 'gen:' + dt,
+                             'values': [n, draw(st.integers(1, 126)), draw(st.integers(0, 126))], 'props': []})
+            if tail == 'list:str':
+                objs.append({'kind': 'channel', 'group': 'big', 'channel': 'tail', 'form': tail,
+                             'values': draw(st.lists(TEXT, min_size=1, max_size=3)), 'props': draw(props(1))})
+            elif tail:
+                objs.append({'kind': 'channel', 'group': 'big', 'channel': 'tail', 'form': tail,
+                             'values': draw(st.binary(min_size=2, max_size=6).map(lambda b: b[:len(b) // 2 * 2])), 'props': []})
+            calls.append(objs)
+        sessions.append(calls)
+    return {'version': draw(st.sampled_from([4712, 4713])), 'dest': dest, 'index': index, 'sessions': sessions,
+            'rewrite': None, 'reuse_objects': False}
+
+
+@st.composite
+def many_segment_program(draw):
+    """100-140 write_segment calls in one session: channels a and b get equally long arrays in every call up to a call
+    k >= 97, after which their lengths differ (readers that summarise per-segment lengths must not mix the two up)"""
+    ncalls = draw(st.sampled_from([100, 101, 102, 110, 128, 140]))
+    k = draw(st.integers(97, ncalls - 1))
+    form = draw(st.sampled_from(['nd:i2', 'nd:f8', 'nd:u1', 'list:str']))
+    order_flip = draw(st.integers(0, 3))
+    calls = []
+    for i in range(ncalls):
+        na = draw(st.integers(1, 2)) if i in (0, k, ncalls - 1) else 1
+        nb = na if i < k else (na + 1 if i == k else draw(st.integers(0, 2)))
+        objs = []
+        for (c, n) in (('a', na), ('b', nb)):
+            if form == 'list:str':
+                if n == 0:
+                    continue
+                vals = ['%s%d.%d' % (c, i, j) for j in range(n)]
+            else:
+                size = np.dtype(form[3:]).itemsize
+                vals = bytes((i * 7 + j * 3 + ord(c)) % 251 for j in range(n * size))
+            objs.append({'kind': 'channel', 'group': 'g', 'channel': c, 'form': form, 'values': vals, 'props': []})
+        if order_flip and i >= k and i % order_flip == 0:
+            objs = objs[::-1]
+        calls.append(objs)
+    return {'version': 4713, 'dest': draw(st.sampled_from(['path', 'stream'])), 'index': False, 'sessions': [calls],
+            'rewrite': None, 'reuse_objects': False}
 
 
 # ----------------------------------------------------------------------------------------------
@@ -294,9 +380,28 @@ def expected_prop(kind, v):
     raise KeyError(kind)
 
 
+def gen_array(dtype, n, mult, add):
+    """deterministic long array: value i = ((i * mult + add) mod 127), halved for floats, microsecond ticks for M8[us]"""
+    base = (np.arange(n, dtype=np.int64) * mult + add) % 127
+    if dtype == 'M8[us]':
+        return base * 1000003 + add
+    if dtype in ('f4', 'f8'):
+        return (base * 0.5).astype(np.dtype(dtype))
+    if dtype in ('c8', 'c16'):
+        return (base + 1j * (base % 5)).astype(np.dtype(dtype))
+    if dtype == '?':
+        return (base % 2).astype(np.dtype('?'))
+    return base.astype(np.dtype(dtype))
+
+
 def channel_array(form, values):
     """the object handed to ChannelObject(data=...)"""
     parts = form.split(':')
+    if parts[0] == 'gen':
+        arr = gen_array(parts[1], *values)
+        if parts[1] == 'M8[us]':
+            return np.datetime64('1904-01-01T00:00:00', 'us') + arr.astype('timedelta64[us]')
+        return arr
     if parts[0] == 'nd' and parts[1] in ND_DTYPES:
         arr = np.frombuffer(bytes(values), dtype=np.dtype(parts[1])).copy()
         if len(parts) > 2 and parts[2] == 'strided':
@@ -321,6 +426,11 @@ def channel_array(form, values):
 def expected_channel(form, values):
     """(type name or None for 'values only', list/bytes of expected values) for one write"""
     parts = form.split(':')
+    if parts[0] == 'gen':
+        arr = gen_array(parts[1], *values)
+        if parts[1] == 'M8[us]':
+            return 'ts', [int(v) for v in arr]
+        return DTYPE_TO_T[parts[1]], arr.astype(arr.dtype.newbyteorder('<')).tobytes()
     if parts[0] == 'nd' and parts[1] in ND_DTYPES:
         return DTYPE_TO_T[parts[1]], bytes(values)
     if form in ('nd:M8[us]', 'list:datetime'):
@@ -422,8 +532,17 @@ def run_program(prog, workdir):
     istream = io.BytesIO() if prog['index'] == 'stream' else None
     first = True
     pool = {} if prog.get('reuse_objects') else None
+    if prog.get('prelude') and path is not None:
+        with TdmsWriter(path, mode='w', version=prog['version'], index_file=bool(prog['index'])) as w0:
+            for call in prog['prelude']:
+                w0.write_segment(build_objects(call))
+    shared = None
+    if prog.get('reuse_writer') and path is not None:
+        shared = TdmsWriter(path, mode='a', version=prog['version'], index_file=bool(prog['index']))
     for calls in prog['sessions']:
-        if path is not None:
+        if shared is not None:
+            w = shared
+        elif path is not None:
             w = TdmsWriter(path, mode='w' if first else 'a', version=prog['version'], index_file=bool(prog['index']))
         else:
             w = TdmsWriter(stream, version=prog['version'], index_file=istream if istream is not None else False)
